@@ -128,6 +128,11 @@ def autoCmd (a : Args) : Option String := do
   let evs ← (a.get? "evs").bind fun s => if s = "-" then some [] else (s.splitOn ";").mapM parseCEv
   let r := crun mac (route = 1) cinit.1 evs
   let all := cinit.2 ++ r.2
-  pure ("ok " ++ String.intercalate "," (all.filterMap effStr) ++ " | " ++ String.intercalate "," (all.filterMap libifStr))
+  -- view=wire: only what is visible without the callbacks (frames, probes) plus the libif operations
+  let wire := (a.get? "view") = some "wire"
+  let vis := all.filterMap fun e => match e with
+    | .send .. | .arpProbe .. => effStr e
+    | _ => if wire then none else effStr e
+  pure ("ok " ++ String.intercalate "," vis ++ " | " ++ String.intercalate "," (all.filterMap libifStr))
 
 end Driver
